@@ -20,7 +20,7 @@ for rid, r in sorted(RULES.items()):
     if rid in SKIP_RULES or r.tier == "thorough":
         continue
     keys = sorted({i.key for i in ctx.rule_result(r)})
-    okkeys = {i.key for i in ctx.rule_result(r) if i.ok}
+    okkeys = {i.key for i in ctx.rule_result(r) if i.ok and not getattr(i, "optional", False)}
     req = [k for k in keys if not INCIDENTAL.search(k) and k in okkeys]
     if req:
         out[rid] = req
